@@ -565,6 +565,83 @@ impl FixtureDatabase {
         imported_fixtures
     }
 
+    /// Find the definition of `fixture_name` that `file_path` brings into scope through
+    /// its imports (star imports, explicit imports and `pytest_plugins`, followed
+    /// transitively).
+    ///
+    /// Only definitions located in a module that is actually reachable from `file_path`
+    /// are considered, nearest import first, so an unrelated same-named fixture elsewhere
+    /// in the workspace is never returned.
+    pub(crate) fn find_imported_definition<F>(
+        &self,
+        fixture_name: &str,
+        file_path: &Path,
+        filter: F,
+    ) -> Option<super::types::FixtureDefinition>
+    where
+        F: Fn(&super::types::FixtureDefinition) -> bool,
+    {
+        let mut visited = HashSet::new();
+        let mut modules = Vec::new();
+        self.collect_imported_modules(fixture_name, file_path, &mut visited, &mut modules);
+
+        let definitions = self.definitions.get(fixture_name)?;
+        modules.iter().find_map(|module| {
+            definitions
+                .iter()
+                .filter(|def| def.file_path == *module && filter(def))
+                .max_by_key(|def| def.line)
+                .cloned()
+        })
+    }
+
+    /// Collect, in import order, the files reachable from `file_path` through imports
+    /// that can carry the fixture `fixture_name`: star imports, `pytest_plugins` and
+    /// explicit imports that name it.
+    fn collect_imported_modules(
+        &self,
+        fixture_name: &str,
+        file_path: &Path,
+        visited: &mut HashSet<PathBuf>,
+        modules: &mut Vec<PathBuf>,
+    ) {
+        let canonical_path = self.get_canonical_path(file_path.to_path_buf());
+        if !visited.insert(canonical_path.clone()) {
+            return;
+        }
+        let Some(content) = self.get_file_content(&canonical_path) else {
+            return;
+        };
+        let Some(parsed) = self.get_parsed_ast(&canonical_path, &content) else {
+            return;
+        };
+        let line_index = self.get_line_index(&canonical_path, &content);
+        let rustpython_parser::ast::Mod::Module(module) = parsed.as_ref() else {
+            return;
+        };
+
+        let mut module_paths: Vec<String> = self
+            .extract_fixture_imports(&module.body, &canonical_path, &line_index)
+            .into_iter()
+            .filter(|import| {
+                import.is_star_import || import.imported_names.iter().any(|n| n == fixture_name)
+            })
+            .map(|import| import.module_path)
+            .collect();
+        module_paths.extend(self.extract_pytest_plugins(&module.body));
+
+        for module_path in module_paths {
+            let Some(resolved) = self.resolve_module_to_file(&module_path, &canonical_path) else {
+                continue;
+            };
+            let resolved = self.get_canonical_path(resolved);
+            if !modules.contains(&resolved) {
+                modules.push(resolved.clone());
+            }
+            self.collect_imported_modules(fixture_name, &resolved, visited, modules);
+        }
+    }
+
     /// Check if a fixture is available in a file via imports.
     /// This is used in resolution to check conftest.py files that import fixtures.
     pub fn is_fixture_imported_in_file(&self, fixture_name: &str, file_path: &Path) -> bool {
